@@ -198,11 +198,26 @@ static void build_pools() {
 
 // ---------------------------------------------------------------------------------------------------------
 // concrete (label-resolved) actions: what is executed on an emitter / what an entry of the model node list is
-enum ActKind { A_INST, A_PREFIX, A_NEWLABEL, A_BIND, A_EMBLABEL, A_DELTA, A_ALIGN, A_EMBED, A_ARRAY, A_CONSTPOOL, A_POOLDATA, A_COMMENT, A_SECTION };
+enum ActKind { A_INST, A_PREFIX, A_NEWLABEL, A_BIND, A_EMBLABEL, A_DELTA, A_ALIGN, A_EMBED, A_ARRAY, A_CONSTPOOL, A_POOLDATA, A_COMMENT, A_SECTION, A_GCINST };
 struct Act {
   int kind = A_COMMENT; int a = 0, b = 0; uint32_t l0 = kInv, l1 = kInv; uint32_t labs[3] = {kInv, kInv, kInv}; Pfx pfx;
   int ident = 0;   // identity of nodes that exist once per builder: 1000+section id, 2000+label id; 0 = anonymous
 };
+
+// constants of the Compiler's global constant pool (BaseCompiler::_new_const with ConstPoolScope::kGlobal)
+struct GConst { size_t size; uint8_t data[16]; const char* name; };
+static const GConst kGConsts[3] = {
+  {4, {0x44, 0x33, 0x22, 0x11}, "dword"}, {8, {1, 2, 3, 4, 5, 6, 7, 8}, "qword"},
+  {16, {0xF0, 0xF1, 0xF2, 0xF3, 0xF4, 0xF5, 0xF6, 0xF7, 0xF8, 0xF9, 0xFA, 0xFB, 0xFC, 0xFD, 0xFE, 0xFF}, "oword"}};
+// the pool the harness expects: the same constants added in the same order to an own ConstPool
+static void build_gpool(const std::vector<int>& adds, ConstPool& pool, size_t* last_off) {
+  for (int v : adds) { size_t off = 0; if (pool.add(kGConsts[v].data, kGConsts[v].size, Out(off)) != Error::kOk) { fprintf(stderr, "c08: pool add failed\n"); exit(2); } if (last_off) *last_off = off; }
+}
+// the instruction that reads constant v through memory operand [label + off]
+static Error emit_gcinst(BaseEmitter* e, int arch, int v, const BaseMem& m) {
+  if (arch == AA64) return v == 0 ? e->emit(a64::Inst::kIdLdr, a64::w3, m) : v == 1 ? e->emit(a64::Inst::kIdLdr, a64::x3, m) : e->emit(a64::Inst::kIdLdr_v, a64::q2, m);
+  return v == 0 ? e->emit(x86::Inst::kIdMov, x86::ecx, m) : v == 1 ? e->emit(x86::Inst::kIdMovq, x86::xmm1, m) : e->emit(x86::Inst::kIdMovaps, x86::xmm2, m);
+}
 
 struct Holder {
   CodeHolder code; Section* sec[3]; StringLogger logger;
@@ -252,6 +267,12 @@ static Error exec_act(BaseEmitter* e, Holder& H, int arch, const Act& t) {
     case A_POOLDATA: return e->embed(g_pool_bytes[t.a].data(), g_pool_bytes[t.a].size());
     case A_COMMENT: return e->comment("harness comment line");
     case A_SECTION: return e->section(H.sec[t.a]);
+    case A_GCINST: {
+      if (t.labs[0] == 1) { Label l = e->new_label(); if (l.id() != t.l0) return Error::kInvalidState; }   // call-order reference: the pool label is created here
+      apply_pfx(e, arch, t.pfx);
+      if (arch == AA64) return emit_gcinst(e, arch, t.a, a64::ptr(Label(t.l0), int32_t(t.b)));
+      return emit_gcinst(e, arch, t.a, x86::ptr(Label(t.l0), int32_t(t.b), uint32_t(kGConsts[t.a].size)));
+    }
   }
   return Error::kInvalidState;
 }
@@ -259,11 +280,11 @@ static Error exec_act(BaseEmitter* e, Holder& H, int arch, const Act& t) {
 // ---------------------------------------------------------------------------------------------------------
 // op alphabet
 enum OpType { O_INST, O_PREFIX, O_NEWLABEL, O_BIND, O_EMBLABEL, O_DELTA, O_ALIGN, O_EMBED, O_ARRAY, O_CONSTPOOL, O_COMMENT, O_SECTION,
-              O_CUR_FIRST, O_CUR_LAST, O_CUR_PREV, O_CUR_NEXT, O_REMOVE, O_REMOVE_PAIR, O_REINS_AFTER, O_REINS_BEFORE, O_REINS_ADD, O_ADD_CPNODE, O_ADD_LABELNODE, O_REMOVE_RANGE };
-static bool is_edit(int t) { return t >= O_CUR_FIRST; }
+              O_CUR_FIRST, O_CUR_LAST, O_CUR_PREV, O_CUR_NEXT, O_REMOVE, O_REMOVE_PAIR, O_REINS_AFTER, O_REINS_BEFORE, O_REINS_ADD, O_ADD_CPNODE, O_ADD_LABELNODE, O_REMOVE_RANGE, O_GCONST };
+static bool is_edit(int t) { return t >= O_CUR_FIRST && t != O_GCONST; }
 static const char* op_kind(int t) {
   static const char* n[] = {"inst", "prefix", "new_label", "bind", "embed_label", "embed_label_delta", "align", "embed", "embed_data_array", "embed_const_pool", "comment", "section",
-                            "set_cursor", "set_cursor", "set_cursor", "set_cursor", "remove_node", "remove_nodes", "add_after", "add_before", "add_node", "add_node(ConstPoolNode)", "add_node(LabelNode)", "remove_nodes"};
+                            "set_cursor", "set_cursor", "set_cursor", "set_cursor", "remove_node", "remove_nodes", "add_after", "add_before", "add_node", "add_node(ConstPoolNode)", "add_node(LabelNode)", "remove_nodes", "inst(new_const global)"};
   return n[t];
 }
 struct OpDef { int type; int a, b, c; std::string name; bool small; };
@@ -309,6 +330,9 @@ static void build_ops(int arch) {
     bool mid = (len == 3 && (k == -1 || k == 1 || k == 3)) || (len == 4 && (k == 1 || k == 2));
     V.push_back(OpDef{O_REMOVE_RANGE, len, k, mid ? 1 : 0, b, false});
   }
+  // Compiler only: an instruction whose memory operand is a constant of the global constant pool (the same op twice = the
+  // same constant twice); the Builder has no such call, these histories are evaluated on the Compiler alone
+  for (int v = 0; v < 3; v++) { snprintf(b, sizeof b, "inst [new_const(global,%s)]", kGConsts[v].name); V.push_back(OpDef{O_GCONST, v, 0, 0, b, v == 1}); }
 }
 static int find_op(int arch, const std::string& name) {
   for (size_t i = 0; i < g_ops[arch].size(); i++) if (g_ops[arch][i].name == name) return int(i);
@@ -325,6 +349,7 @@ struct Model {
   uint32_t next_label = 2; uint32_t slot[3] = {0, 1, kInv}; Pfx pending;
   std::vector<int> label_kind = {0, 0};    // by label id: 0 plain LabelNode, 1+p ConstPoolNode with pool p
   bool has_edit = false, has_section = false, became_empty = false, invalid = false;
+  uint32_t gpool_label = kInv; std::vector<int> gadds;   // global constant pool of the Compiler: label and constants in creation order
   explicit Model(int arch_ = 0) : arch(arch_) { Act s; s.kind = A_SECTION; s.a = 0; s.ident = 1000; list.push_back(s); }
   bool active(int ident) const { for (auto& t : list) if (t.ident == ident) return true; return false; }
   void add_node(const Act& t) { list.insert(list.begin() + (cur + 1), t); cur++; }
@@ -393,6 +418,15 @@ struct Model {
       }
       case O_ADD_CPNODE: { uint32_t l = next_label++; slot[2] = l; label_kind.push_back(1 + op.a); st.lit.b = int(l); st.lit.a = op.a; add_node(label_item(l)); break; }
       case O_ADD_LABELNODE: { uint32_t l = next_label++; slot[2] = l; label_kind.push_back(0); st.lit.b = int(l); add_node(label_item(l)); break; }
+      case O_GCONST: {
+        bool first = gpool_label == kInv;
+        if (first) { gpool_label = next_label++; label_kind.push_back(0); }
+        gadds.push_back(op.a);
+        size_t off = 0; { Arena ar(1024); ConstPool cp(ar); build_gpool(gadds, cp, &off); }
+        Act t; t.kind = A_GCINST; t.a = op.a; t.b = int(off); t.l0 = gpool_label;
+        st.lit = t; st.lit.labs[0] = first ? 1 : 0;
+        t.labs[0] = 0; t.pfx = pending; pending = Pfx(); emit_item(t); break;
+      }
       case O_REMOVE_RANGE: {
         int first = cur - op.b, last = first + op.a - 1;
         if (first < 0 || last >= int(list.size())) return false;
@@ -483,7 +517,9 @@ static std::string diff_rsnap(const RSnap& ref, const RSnap& got, std::string& d
 // ---------------------------------------------------------------------------------------------------------
 // runs
 struct RefOut { Error err = Error::kOk; int idx = -1; Snap snap; std::unique_ptr<Holder> H; std::unique_ptr<BaseEmitter> e; };
-static void run_ref(int arch, int cfg, int n_pre_labels, const std::vector<Act>& acts, RefOut& out) {
+// gm: model whose global constant pool (if any) is flushed after the last act ("at the end of the code"), final_section >= 0:
+// switch to that section first (call-order reference: the section of the last node is not the section of the last call)
+static void run_ref(int arch, int cfg, int n_pre_labels, const std::vector<Act>& acts, RefOut& out, const Model* gm = nullptr, int final_section = -1) {
   out.H.reset(new Holder(arch, cfg));
   if (arch == AA64) out.e.reset(new a64::Assembler()); else out.e.reset(new x86::Assembler());
   if (out.H->code.attach(out.e.get()) != Error::kOk) { fprintf(stderr, "c08: attach failed\n"); exit(2); }
@@ -493,6 +529,12 @@ static void run_ref(int arch, int cfg, int n_pre_labels, const std::vector<Act>&
   for (size_t i = 0; i < acts.size(); i++) {
     Error e = exec_act(out.e.get(), *out.H, arch, acts[i]);
     if (e != Error::kOk) { out.err = e; out.idx = int(i); break; }
+  }
+  if (out.err == Error::kOk && gm && gm->gpool_label != kInv) {
+    Error e = Error::kOk;
+    if (final_section >= 0) e = out.e->section(out.H->sec[final_section]);
+    if (e == Error::kOk) { Arena ar(1024); ConstPool cp(ar); build_gpool(gm->gadds, cp, nullptr); e = out.e->embed_const_pool(Label(gm->gpool_label), cp); }
+    if (e != Error::kOk) { out.err = e; out.idx = int(acts.size()); }
   }
   take_snap(out.H->code, out.snap);
 }
@@ -538,6 +580,13 @@ static void run_x(int arch, int cfg, bool compiler, const std::vector<Step>& tr,
           if (e == Error::kOk && n->label_id() != uint32_t(st.lit.b)) e = Error::kInvalidState;
           if (e == Error::kOk) b->add_node(n);
         }
+        break;
+      }
+      case O_GCONST: {
+        const GConst& g = kGConsts[st.lit.a];
+        apply_pfx(b, arch, Pfx());
+        if (arch == AA64) { a64::Mem m = static_cast<a64::Compiler*>(b)->new_const(ConstPoolScope::kGlobal, g.data, g.size); e = emit_gcinst(b, arch, st.lit.a, m); }
+        else { x86::Mem m = static_cast<x86::Compiler*>(b)->new_const(ConstPoolScope::kGlobal, g.data, g.size); e = emit_gcinst(b, arch, st.lit.a, m); }
         break;
       }
       case O_REMOVE_RANGE: {
@@ -606,18 +655,20 @@ static CaseResult evaluate(int arch, int cfg, const std::vector<int>& hist) {
   RefOut lit; bool have_lit = !m.has_edit;
   if (have_lit) {
     std::vector<Act> acts; for (auto& st : tr) acts.push_back(st.lit);
-    run_ref(arch, cfg, 2, acts, lit);
+    int fs = -1; for (auto& t : m.list) if (t.kind == A_SECTION) fs = t.a;    // section of the last node = where the code ends
+    run_ref(arch, cfg, 2, acts, lit, &m, m.gpool_label != kInv ? fs : -1);
     if (lit.err != Error::kOk && lit.idx < n - 1) return evaluate(arch, cfg, std::vector<int>(hist.begin(), hist.begin() + lit.idx + 1));   // compare only up to the first error
   }
   // node-order reference: the harness's edited sequence
   RefOut lin_m, lin_p; bool have_lin_m = false, have_lin_p = false;
   auto need_lin = [&](bool of_pre) -> RefOut& {
-    if (of_pre) { if (!have_lin_p) { run_ref(arch, cfg, int(pre.next_label), pre.list, lin_p); have_lin_p = true; } return lin_p; }
-    if (!have_lin_m) { run_ref(arch, cfg, int(m.next_label), m.list, lin_m); have_lin_m = true; } return lin_m;
+    if (of_pre) { if (!have_lin_p) { run_ref(arch, cfg, int(m.next_label), pre.list, lin_p, &m); have_lin_p = true; } return lin_p; }
+    if (!have_lin_m) { run_ref(arch, cfg, int(m.next_label), m.list, lin_m, &m); have_lin_m = true; } return lin_m;
   };
   RSnap lit_r; bool have_lit_r = false;
 
-  for (int which = 0; which < 2; which++) {
+  const int first_which = m.gpool_label != kInv ? 1 : 0;   // new_const() exists on the Compiler only
+  for (int which = first_which; which < 2; which++) {
     XOut X; run_x(arch, cfg, which == 1, tr, X);
     bool comp = which == 1;
     if (X.desync_at >= 0) {
@@ -635,11 +686,13 @@ static CaseResult evaluate(int arch, int cfg, const std::vector<int>& hist) {
         // no edits: every earlier call was accepted by the assembler, so only the rejected call may be wrong
         if (lit.err != X.call_err) return fail(std::string("error-differs:asm=") + errname(lit.err) + ":bld=" + errname(X.call_err), std::string("assembler call returns ") + errname(lit.err) + ", builder call returns " + errname(X.call_err), comp);
         if (X.fin != Error::kOk) return fail(std::string("error-differs:call=") + errname(X.call_err) + ":finalize=" + errname(X.fin), "the call was rejected like the assembler's, but finalize() of the accepted calls failed", comp);
-        if (!m.has_section) { clause = diff_snap(lit.snap, X.snap, detail); if (!clause.empty()) return fail(clause, detail, comp); }
+        // (with a pending global constant pool the accepted nodes + the pool are still finalized: compared below)
+        if (!m.has_section && m.gpool_label == kInv) { clause = diff_snap(lit.snap, X.snap, detail); if (!clause.empty()) return fail(clause, detail, comp); }
       } else {
         // the op issued to an assembler that is positioned like the builder's cursor
         std::vector<Act> acts(pre.list.begin(), pre.list.begin() + (pre.cur + 1)); size_t at = acts.size();
-        Act t = last.lit; if (t.kind == A_INST) t.pfx = pre.pending;
+        Act t = last.lit; if (t.kind == A_INST || t.kind == A_GCINST) t.pfx = pre.pending;
+        if (t.kind == A_GCINST) t.labs[0] = 0;   // all labels exist already in this reference (created up front)
         acts.push_back(t);
         RefOut er; run_ref(arch, cfg, int(m.next_label), acts, er);
         if (er.idx < 0 || er.idx >= int(at)) {
@@ -647,7 +700,7 @@ static CaseResult evaluate(int arch, int cfg, const std::vector<int>& hist) {
           if (ee != X.call_err) return fail(std::string("error-differs:asm=") + errname(ee) + ":bld=" + errname(X.call_err), std::string("assembler call returns ") + errname(ee) + ", builder call returns " + errname(X.call_err), comp);
         }
       }
-      if ((m.has_edit || m.has_section) && !pre.invalid && !m.invalid) {   // (m.invalid: the rejected call may have left nodes behind, like the assembler leaves bytes)
+      if ((m.has_edit || m.has_section || m.gpool_label != kInv) && !pre.invalid && !m.invalid) {   // (m.invalid: the rejected call may have left nodes behind, like the assembler leaves bytes)
         // what was accepted before must still finalize like the (edited) sequence without the rejected call
         RefOut& lin = need_lin(true);
         if (lin.err != X.fin) return fail(std::string("error-differs:asm=") + errname(lin.err) + ":bld=" + errname(X.fin), "a call was rejected; finalize() of the accepted nodes differs from assembling the edited sequence", comp);
@@ -682,8 +735,8 @@ static CaseResult evaluate(int arch, int cfg, const std::vector<int>& hist) {
       if (lin.err != X.fin) return fail(std::string("error-differs:asm=") + errname(lin.err) + ":bld=" + errname(X.fin), std::string("assembling the edited sequence: ") + errname(lin.err) + (lin.idx >= 0 ? " at entry " + std::to_string(lin.idx) : std::string()) + ", finalize(): " + errname(X.fin), comp);
       clause = diff_snap(lin.snap, X.snap, detail); if (!clause.empty()) return fail(clause, detail + " (reference: edited sequence)", comp);
     }
-    if (which == 0) vh::ctx().outcomes.insert(std::string(arch_name(arch)) + ":" + errname(X.call_idx >= 0 ? X.call_err : X.fin));
-    if (which == 0) { for (auto& s : X.snap.sec) if (s.size() > s.find(':', s.find(':') + 1) + 1) R.nontrivial = true; if (X.fin != Error::kOk || X.snap.labels.find('b') != std::string::npos) R.nontrivial = true; }
+    if (which == first_which) vh::ctx().outcomes.insert(std::string(arch_name(arch)) + ":" + errname(X.call_idx >= 0 ? X.call_err : X.fin));
+    if (which == first_which) { for (auto& s : X.snap.sec) if (s.size() > s.find(':', s.find(':') + 1) + 1) R.nontrivial = true; if (X.fin != Error::kOk || X.snap.labels.find('b') != std::string::npos) R.nontrivial = true; }
   }
   if (R.v == V_TERMINAL) return R;
   if (m.invalid) { R.v = V_TERMINAL; return R; }
